@@ -84,6 +84,7 @@ structure Univ where
   addrs   : List Addr := ["mod:NFT", "mod:MT"]
   mclasses : List Str := []
   mids    : List Str := []
+  names   : List Chain := []
 
 def addU {α} [DecidableEq α] (l : List α) (x : α) : List α := if l.contains x then l else x :: l
 
@@ -136,6 +137,16 @@ def dump (u : Univ) (s : State) : String :=
               (if s.apps.mt.supply (c, i) != 0 then [s!"ms:{hexOf c}/{hexOf i}={s.apps.mt.supply (c, i)}"] else []) ++
               u.addrs.filterMap (fun a => if s.apps.mt.bal (c, i, a) != 0 then some s!"mb:{hexOf c}/{hexOf i}/{a}={s.apps.mt.bal (c, i, a)}" else none)))
   " ".intercalate (sortStrs (a ++ b ++ c ++ d ++ e ++ f ++ g ++ h ++ i ++ j))
+
+/-- registry dump: client types / latest heights, relayers, routing rules -/
+def dumpReg (u : Univ) (s : State) : String :=
+  let a := u.names.filterMap (fun q => (s.core.clients q).map (fun cl => s!"ct:{undash q}={cl.ctype}@{cl.latest}"))
+  let b := u.names.filterMap (fun q => if (s.core.relayers q).isEmpty then none
+              else some s!"rl:{undash q}={",".intercalate (s.core.relayers q)}")
+  let c := match s.core.rules with
+    | none => []
+    | some rs => if rs.isEmpty then [] else ["rr:" ++ ",".intercalate (rs.map hexOf)]
+  " ".intercalate (sortStrs (a ++ b ++ c))
 
 structure St where
   w : World := World.init
@@ -200,7 +211,7 @@ def stepLine (st : St) (line : String) : St × String :=
     | none => bad
   | ["client", c, q, h, t, period] =>
     match h.toNat?, t.toNat?, period.toNat? with
-    | some h, some t, some pd => runOp st c st.u (.createClient c q h t pd)
+    | some h, some t, some pd => runOp st c { st.u with names := addU st.u.names q } (.createClient c q h t pd)
     | _, _, _ => bad
   | ["update", c, q, h, t] =>
     match h.toNat?, t.toNat? with
@@ -256,6 +267,46 @@ def stepLine (st : St) (line : String) : St × String :=
     | some cls, some id, some amt =>
       runOp st c { st.u with mclasses := addU st.u.mclasses cls, mids := addU st.u.mids id } (.mtBurn c a cls id amt)
     | _, _, _ => bad
+  | ["m.create", c, auth, q, ct, h, t, pd, v, cs] =>
+    match h.toNat?, t.toNat?, pd.toNat? with
+    | some h, some t, some pd =>
+      let u := { st.u with names := addU st.u.names (dash q) }
+      let (w', r) := step H Hc st.w (.createClientMsg c (dash auth) (dash q) ct h t pd (v == "1") (cs == "1"))
+      ({ w := w', u := u }, s!"res={r.toString} |  | {dumpReg u (w' c)}")
+    | _, _, _ => bad
+  | ["m.upgrade", c, auth, q, ct, h, t, pd, v, cs] =>
+    match h.toNat?, t.toNat?, pd.toNat? with
+    | some h, some t, some pd =>
+      let u := { st.u with names := addU st.u.names (dash q) }
+      let (w', r) := step H Hc st.w (.upgradeClientMsg c (dash auth) (dash q) ct h t pd (v == "1") (cs == "1"))
+      ({ w := w', u := u }, s!"res={r.toString} |  | {dumpReg u (w' c)}")
+    | _, _, _ => bad
+  | "m.relayers" :: c :: auth :: q :: rs =>
+    let u := { st.u with names := addU st.u.names (dash q) }
+    let (w', r) := step H Hc st.w (.registerRelayerMsg c (dash auth) (dash q) (rs.map dash))
+    ({ w := w', u := u }, s!"res={r.toString} |  | {dumpReg u (w' c)}")
+  | "m.rules" :: c :: auth :: rules =>
+    match rules.mapM unhex with
+    | some rs =>
+      let (w', r) := step H Hc st.w (.setRulesMsg c (dash auth) rs)
+      ({ w := w', u := st.u }, s!"res={r.toString} |  | {dumpReg st.u (w' c)}")
+    | none => bad
+  | ["m.update", c, sg, q, h, t, ok] =>
+    match h.toNat?, t.toNat? with
+    | some h, some t =>
+      let u := { st.u with names := addU st.u.names (dash q) }
+      let (w', r) := step H Hc st.w (.updateClientMsg c (dash sg) (dash q) h t (ok == "1"))
+      ({ w := w', u := u }, s!"res={r.toString} |  | {dumpReg u (w' c)}")
+    | _, _ => bad
+  | ["relayers", c, q, r1] =>
+    -- test set-up: the testing package registers the chain's first account as relayer
+    let s := st.w c
+    let s' : State := { s with core := { s.core with relayers := upd s.core.relayers q [r1] } }
+    ({ st with w := upd st.w c s', u := { st.u with names := addU st.u.names q } }, "res=ok")
+  | ["authority", c, a] =>
+    let s := st.w c
+    let s' : State := { s with core := { s.core with authority := a } }
+    ({ st with w := upd st.w c s' }, "res=ok")
   | ["auth", c, sh, dh, ph] =>
     match unhex sh, unhex dh, unhex ph with
     | some sc, some d, some pt =>
